@@ -1,5 +1,6 @@
 CONFIG = dict(
     prop="C31",
+    ready=True,
     manifest=dict(
         text="Machine-checked Lean 4 theorems, for ALL 64/32-bit arguments, about definitions that are REGENERATED on every run "
              "from mathutil.go, fee.go and UxOut.CoinHours by a Go->Lean translator: each checked helper equals its mathematical "
